@@ -21,7 +21,7 @@ for pid in ids:
     if pp.get("verus"):
         tech.append("Verus contracts (requires/ensures/invariants) on functions extracted mechanically from /repo: units " + ", ".join(pp["verus"]))
     if pp.get("verus_support"):
-        tech.append("supporting units whose contracts the argument composes, re-verified in this check: " + ", ".join(pp["verus_support"]))
+        tech.append("supporting units whose contracts the argument composes, re-verified in this check (plus every unit these import with `#! use` / plan.json unit_deps): " + ", ".join(pp["verus_support"]))
     if complete:
         tech.append("Kani loop-free full-domain contract harnesses (complete): " + ", ".join(complete))
     if bounded:
